@@ -276,3 +276,98 @@ Example C06_poll_driver_same_schedule :
             pd s = PNone /\ p_settled s = true.
 Proof. eexists. split; [vm_compute; reflexivity|]. split; reflexivity. Qed.
 Print Assumptions C06_poll_driver_same_schedule.
+
+(* ---- WHICH waker: the one of the latest Pending poll ------------------- *)
+
+(* The waiting take()/close() may be polled under different wakers (polled by
+   hand, then moved into a task; moved between tasks).  [wusteps] follows the
+   unsync runs and names wakers (closer, generation): [WSwitch c] gives closer
+   c's future a fresh waker for its next polls, [lgen ws c] is the generation
+   its latest poll used.  Whenever a Pending closer has become the only owner,
+   a notification is pending and it is held by the waker of that latest poll —
+   not by an earlier one *)
+Theorem C06_latest_waker_woken : forall g ls ws c,
+  closer_release_wakes g = true -> wusteps g winit ls = Some ws ->
+  pc_at (base ws) c = Some CPending -> strong (base ws) = 1 ->
+  wwoken (base ws) = true /\ wok ws = (c, lgen ws c).
+Proof. exact latest_waker_woken. Qed.
+Print Assumptions C06_latest_waker_woken.
+
+(* [lgen] is what it is said to be: a poll records the waker it ran under *)
+Theorem C06_latest_waker_is_last_poll : forall g ws c ws',
+  wustep g ws (WU (UPoll c)) = Some ws' -> lgen ws' c = gen ws c /\ gen ws' = gen ws.
+Proof. exact wustep_poll_lgen. Qed.
+Print Assumptions C06_latest_waker_is_last_poll.
+
+(* non-vacuity: polled under waker 0, moved (waker 1) and polled again, moved
+   once more (waker 2, not yet polled there); the last clone goes: waker 1 is
+   woken — the one of the latest poll, neither the first nor the newest *)
+Example C06_latest_waker_nonvacuous :
+  exists ws, wusteps current winit
+     [WU UClone; WU (UTake false); WU (UPoll 0); WSwitch 0; WU (UPoll 0); WSwitch 0; WU UDropHandle] = Some ws /\
+     pc_at (base ws) 0 = Some CPending /\ strong (base ws) = 1 /\ wwoken (base ws) = true /\
+     wok ws = (0, 1) /\ lgen ws 0 = 1 /\ gen ws 0 = 2.
+Proof. eexists. split; [vm_compute; reflexivity|]. repeat split. Qed.
+Print Assumptions C06_latest_waker_nonvacuous.
+
+(* ---- multishot accept: queued connections ----------------------------- *)
+
+(* Incoming / SubmitMulti<AcceptMulti>: for every sequence of poll_next /
+   stream drop / peer connects / driver turns / user drops / runtime drop, on
+   both drivers:
+   - every descriptor the kernel created is in exactly one place: an unreaped
+     completion, the operation's queue, the user's hands, closed, or lost;
+   - queued (accepted, not yet pulled) sockets live in operation storage that
+     is still referenced, and that storage is never released with sockets
+     left in it (they are closed with it);
+   - a descriptor is lost only when the io_uring driver is dropped with
+     completions unreaped (the known finding of C06_produced_fd);
+   - when nothing is left to run, everything created was closed (or lost that way) *)
+Theorem C06_multishot_queued_closed : forall ur ls s,
+  msteps (minit ur) ls = Some s ->
+  accepted s = cq s + queue s + held s + mclosed s + mlost s /\
+  (1 <= queue s -> m_user s = true \/ m_drv s = true) /\
+  (m_user s = false -> m_drv s = false -> queue s = 0) /\
+  (1 <= mlost s -> m_uring s = true /\ m_alive s = false) /\
+  (m_settled s = true ->
+     cq s = 0 /\ queue s = 0 /\ held s = 0 /\ accepted s = mclosed s + mlost s).
+Proof. exact multishot_queued_closed. Qed.
+Print Assumptions C06_multishot_queued_closed.
+
+(* every drop point: the stream is dropped (whatever is queued, in flight or
+   unreaped), the driver takes one turn: nothing accepted so far is left
+   unowned — it is in the user's hands or closed *)
+Theorem C06_multishot_drop_then_turn : forall ur ls s s1 s2,
+  msteps (minit ur) ls = Some s -> mstep s MDrop = Some s1 -> mstep s1 MDrive = Some s2 ->
+  cq s2 = 0 /\ queue s2 = 0 /\ mlost s2 = 0 /\ accepted s2 = held s2 + mclosed s2.
+Proof. exact multishot_drop_then_turn. Qed.
+Print Assumptions C06_multishot_drop_then_turn.
+
+(* non-vacuity: 3 peers connect, the user pulls 1, drops the stream with 2
+   queued; the driver's next turn closes both *)
+Example C06_multishot_pull_one_of_three :
+  exists s, msteps (minit true) [MPoll; MDrive; MConnect; MConnect; MConnect; MDrive; MPoll; MDrop] = Some s /\
+    queue s = 2 /\ held s = 1 /\ mclosed s = 0 /\
+    exists s', mstep s MDrive = Some s' /\ queue s' = 0 /\ mclosed s' = 2 /\ held s' = 1 /\ mlost s' = 0.
+Proof.
+  eexists. split; [vm_compute; reflexivity|]. repeat (split; [reflexivity|]).
+  eexists. split; [vm_compute; reflexivity|]. repeat split.
+Qed.
+Print Assumptions C06_multishot_pull_one_of_three.
+
+(* ... and when the runtime is dropped instead of taking that turn the queued
+   ones are closed with the operation as well *)
+Example C06_multishot_runtime_drop_closes_queue :
+  exists s, msteps (minit true)
+     [MPoll; MDrive; MConnect; MConnect; MConnect; MDrive; MPoll; MDrop; MDriverDrop] = Some s /\
+    queue s = 0 /\ mclosed s = 2 /\ held s = 1 /\ mlost s = 0.
+Proof. eexists. split; [vm_compute; reflexivity|]. repeat split. Qed.
+Print Assumptions C06_multishot_runtime_drop_closes_queue.
+
+(* KNOWN FINDING (same defect as C06_uring_drop_loses_produced_fd_refuted):
+   accepted but UNREAPED connections are discarded by io_uring Driver::drop *)
+Lemma C06_multishot_unreaped_lost_refuted :
+  exists s, msteps (minit true) [MPoll; MDrive; MConnect; MConnect; MConnect; MDrop; MDriverDrop] = Some s /\
+            mlost s = 3 /\ m_settled s = true.
+Proof. eexists. split; [vm_compute; reflexivity|]. split; reflexivity. Qed.
+Print Assumptions C06_multishot_unreaped_lost_refuted.
